@@ -51,7 +51,8 @@ Definition role := list N.
 Definition policy := kind -> N -> auth_arg -> role -> bool.
 Inductive auth := NoAuth | AuthHandler (p : policy) (r : role).
 
-(* ordered log of everything the application sees; u = unit id whose handler is called *)
+(* ordered log of everything the application sees; in the handler events u = index of the handler
+   object that is called (the object does not know through which unit id), in EvAuth the frame's unit id *)
 Inductive event :=
 | EvReadCoil (u a : N) | EvReadDiscreteInput (u a : N)
 | EvReadHoldingRegister (u a : N) | EvReadInputRegister (u a : N)
@@ -64,11 +65,18 @@ Definition is_auth_event (e : event) : bool := match e with EvAuth _ _ _ _ => tr
 Definition handler_events (l : list event) : list event := filter (fun e => negb (is_auth_event e)) l.
 Definition auth_events (l : list event) : list event := filter is_auth_event l.
 
-(* unit map: association list in ascending unit id order (BTreeMap) *)
-Section Units.
-Context {St : Type}.
-Fixpoint lookup (u : N) (m : list (N * St)) : option St :=
+(* association lists *)
+Section Assoc.
+Context {A : Type}.
+Fixpoint lookup (u : N) (m : list (N * A)) : option A :=
   match m with [] => None | (k, s) :: r => if k =? u then Some s else lookup u r end.
-Fixpoint update (u : N) (s' : St) (m : list (N * St)) : list (N * St) :=
-  match m with [] => [] | (k, s) :: r => if k =? u then (k, s') :: r else (k, s) :: update u s' r end.
-End Units.
+End Assoc.
+
+(* ServerHandlerMap: BTreeMap<UnitId, Arc<Mutex<Box<T>>>>. Two unit ids may hold the SAME handler
+   object, so the map goes from unit id to a handler index (ascending unit id, as the BTreeMap
+   iterates) and the states are kept per handler index: a write through unit 1 is visible through
+   unit 2 when both map to the same index. *)
+Record ucfg (St : Type) := { u_map : list (N * N); u_store : N -> St }.
+Arguments u_map {St}. Arguments u_store {St}.
+Definition sset {St} (g : N -> St) (h : N) (s : St) : N -> St := fun k => if k =? h then s else g k.
+Definition with_store {St} (us : ucfg St) (g : N -> St) : ucfg St := {| u_map := u_map us; u_store := g |}.
